@@ -626,6 +626,27 @@ impl A {
         visible.dedup();
         let locked: BTreeSet<u64> = open.iter().map(|(_, (n, _, _))| *n).collect();
         let free_owned: Vec<u64> = owned.iter().filter(|n| !locked.contains(n)).cloned().collect();
+        // frame-owned nodes whose whole subtree has no open substate: only these are moved into the store
+        // (the discipline the system layer keeps; see Props/C05.lean `kernel_alone_not_sufficient`)
+        let subtree_unlocked = |root: u64| -> bool {
+            let mut todo = vec![root];
+            let mut seen = BTreeSet::new();
+            while let Some(x) = todo.pop() {
+                if !seen.insert(x) {
+                    continue;
+                }
+                if locked.contains(&x) {
+                    return false;
+                }
+                if let Some((_, subs)) = g.nodes.get(&x) {
+                    for v in subs.values() {
+                        todo.extend(v.owns.iter().cloned());
+                    }
+                }
+            }
+            true
+        };
+        let movable: Vec<u64> = free_owned.iter().filter(|n| subtree_unlocked(**n)).cloned().collect();
         let bad = rng.chance(1, 35);
         let bad_kind = rng.below(6);
         let any_id = |rng: &mut Rng| -> u64 {
@@ -694,7 +715,7 @@ impl A {
                 let i = rng.below(keys.len() as u64) as usize;
                 keys.remove(i);
             }
-            let mut pool = free_owned.clone();
+            let mut pool = if global { movable.clone() } else { free_owned.clone() };
             let mut vals: Vec<(u64, Val)> = vec![];
             let mut all_taken: Vec<u64> = vec![];
             for k in &keys {
@@ -748,7 +769,7 @@ impl A {
             if bad && bad_kind == 2 && to_store && !owns.is_empty() {
                 owns.remove(0); // CantDropNodeInStore
             }
-            owns.extend(subset(rng, &free_owned, 1, 2));
+            owns.extend(subset(rng, if to_store { &movable } else { &free_owned }, 1, 2));
             let mut refs: Vec<u64> = cur.refs.iter().filter(|_| rng.chance(2, 3)).cloned().collect();
             refs.extend(mk_refs(rng, to_store, &owns));
             let mut v = Val { owns, refs };
